@@ -15,6 +15,7 @@ func init() {
 			{"C01.overwrite-flag", ruleC01OverwriteFlag, ""},
 			{"C01.split", ruleC01Split, ""},
 			{"C01.addressing", ruleC01Addressing, ""},
+			{"C01.chain-links", ruleC01ChainLinks, ""},
 			{"C01.key-limits", ruleC16Consts, ""},
 			{"C01.scan-cursor", ruleC11Cursor, ""},
 			{"C01.kernel", ruleKernelShapes("(*pogreb.index).bucketIndex", "(*pogreb.bucket).del", "(*pogreb.slotWriter).insert", "(*pogreb.slotWriter).write", "(*pogreb.index).createOverflowBucket", "(*pogreb.bucketIterator).next", "(*pogreb.index).newBucketIterator", "(pogreb.slot).kvSize", "(*pogreb.datalog).readKey", "(*pogreb.datalog).readKeyValue"), ""},
@@ -29,6 +30,7 @@ func init() {
 		Rules: []ruleDef{
 			{"C06.sync-reaches-fsync", ruleC06SyncReaches, ""},
 			{"C06.seal-sync", ruleC06SealSync, ""},
+			{"C06.older-first", ruleC03OlderFirst, ""},
 			{"C06.unlink-after-durable", ruleC06Unlink, ""},
 			{"C06.errs", ruleErrs, ""},
 			{"C06.recover-syncs", ruleC06RecoverSyncs, ""},
@@ -53,6 +55,7 @@ func init() {
 	register("C15", &propDef{
 		Rules: []ruleDef{
 			{"C15.name-families", ruleC15NameFamilies, ""},
+			{"C15.seal-sites", ruleSealSites, ""},
 			{"C15.curseg-live", ruleC15CurSegLive, ""},
 			{"C15.remove-order", ruleC15RemoveOrder, ""},
 			{"C15.thresholds", ruleC15Thresholds, ""},
@@ -66,6 +69,7 @@ func init() {
 			{"C04.size-mirror", ruleC04SizeMirror, ""},
 			{"C04.unlock-owner", ruleCloseOrder, ""},
 			{"C04.open-order", ruleOpenOrder, ""},
+			{"C04.older-first", ruleC03OlderFirst, ""},
 			{"C04.tail-handling", ruleC08Gates, ""},
 			{"C04.segment-end", ruleC03CompactComplete, ""},
 			{"C04.seal-after-replay", ruleC04SealAfterReplay, ""},
@@ -100,6 +104,7 @@ func init() {
 			{"C07.scan-cursor", ruleC11Cursor, ""},
 			{"C07.count", ruleC01Count, ""},
 			{"C07.copy-inside-lock", ruleC14CopyInsideLock, ""},
+			{"C07.no-retained-locations", ruleNoRetainedLocations, "primary"},
 		},
 		Explanation: "Decides only the critical-section structure linearizability needs, with a path-sensitive lockset analysis on the call-string-cloned interprocedural graph of every API entry: (guarded) every read/write of index, datalog, segment-meta and file-size state and every fs.File call on a shared index/segment file reachable from an entry is made with DB.mu held in the required mode; (one-section) Put, Delete, Get, GetAppend, Has, Count, Sync and one iterator refill never release DB.mu and take it again; (balanced) every entry returns with the lockset it was entered with. NOT decided: the existence of a linearization for every history.",
 		Assumptions: append([]string{"guarded-state table of DESIGN.md 2.2 (fields of index, datalog, segmentMeta, file.size; I/O on index and segment files)"}, commonAssumptions...),
@@ -113,6 +118,8 @@ func init() {
 			{"C10.fs-calls", ruleFSCalls, ""},
 			{"C10.fs-readers-pure", ruleFSReadersPure, ""},
 			{"C10.copy-inside-lock", ruleC14CopyInsideLock, ""},
+			{"C10.no-alias-out", ruleC14NoAliasOut, ""},
+			{"C10.no-retained-locations", ruleNoRetainedLocations, "primary"},
 		},
 		Explanation: "Decides the lock discipline race- and deadlock-freedom need: (guarded) as C07; (balanced) no lock leaked or double-released on any path, error paths included; (lock-order) the held->acquired graph over maintenanceMu, ItemIterator.mu, DB.mu is acyclic, no re-entrant acquisition, no WaitGroup.Wait/channel operation while a lock is held; (goroutine) the only goroutine is registered with the WaitGroup before it starts, defers Done, leaves its loop on ctx.Done(), and Close cancels it, waits, then locks; (fs-calls) directory operations on the database's FileSystem are made under DB.mu; (fs-readers-pure) File methods documented as thread-safe (Slice, ReadAt, Stat) do not write receiver state. NOT decided: absence of panics/faults in general (bounds checks are not provable here), races on state outside the tables, progress.",
 		Assumptions: commonAssumptions,
@@ -144,6 +151,7 @@ func init() {
 			{"C05.older-first", ruleC03OlderFirst, ""},
 			{"C05.chain-exit", ruleC01ChainExit, ""},
 			{"C05.guarded", ruleGuarded, ""},
+			{"C05.no-retained-locations", ruleNoRetainedLocations, "primary"},
 			{"C05.balanced", ruleBalanced, ""},
 			{"C05.sequence-monotonic", ruleC03SequenceMonotonic, ""},
 			{"C05.seal-after-replay", ruleC04SealAfterReplay, ""},
@@ -180,6 +188,7 @@ func init() {
 			{"C11.chain-drain", ruleC11Drain, ""},
 			{"C11.split-forward", ruleC01Split, ""},
 			{"C11.copied", ruleC14NoAliasOut, ""},
+			{"C11.no-retained-locations", ruleNoRetainedLocations, "primary"},
 			{"C11.kernel", ruleKernelShapes("(*pogreb.bucketIterator).next", "(*pogreb.index).newBucketIterator", "(*pogreb.datalog).readKeyValue", "(*pogreb.index).bucketIndex"), ""},
 		},
 		Explanation: "Decides: the scan walk of a bucket chain cannot end before the end of the chain; the scan position advances by exactly one bucket after a successful fetch of that bucket and is compared with index.numBuckets re-read on every iteration; ErrIterationDone only at the live bound with an empty queue; queued pairs are (copies of) results #0/#1 of readKeyValue for the visited slot; a whole chain is drained inside one shared section of DB.mu with ItemIterator.mu held; a split appends exactly one bucket, updates addressing before redistribution and publishes numBuckets last. NOT decided: exactly-once on every quiescent state; at-least-once under every interleaving.",
@@ -190,6 +199,7 @@ func init() {
 			{"C12", ruleC12, ""},
 			{"C12.guarded", ruleGuarded, ""},
 			{"C12.write-ahead", ruleC03WriteAhead, ""},
+			{"C12.older-first", ruleC03OlderFirst, ""},
 		},
 		Explanation: "Decides: Backup holds maintenanceMu for all its file-system calls, guarded accesses and DB.mu acquisitions (compaction excluded for the whole backup, capture included); the copy bounds are file.size of not-full segments captured with DB.mu held; whole-file io.Copy is used only for segments absent from the captured map and io.CopyN is bounded by the captured size; every success return creates the lock file in the backup; the source file system is only opened read-only; datalog state is never read without DB.mu (guarded). NOT decided: that the opened backup equals the state at one instant for all schedules.",
 		Assumptions: commonAssumptions,
